@@ -130,8 +130,16 @@ func runC04(t *simrt.Tape, o Opts) Outcome {
 		h.gen = world.GenOpts{ShortExpiry: t.Choose(4, "shortexp") != 0, SmallCaps: t.Choose(3, "smallcaps") == 1, AllowTinyLFU: allowTinyLFU}
 		h.weights = [opKinds]int{opEncrypt: 10, opDecrypt: 1, opOpen: 1, opCloseSess: 1, opAdvance: 7, opRevoke: 1, opForeignRotate: 1, opRestart: 1, opNewProc: 1}
 		h.payloadClasses = []int{2}
+		skewed := t.Choose(4, "clock-skew") == 1
+		if skewed {
+			// hosts whose clocks disagree: every clause is judged on the acting process's own clock
+			w.ClockSkews = []time.Duration{0}
+		}
 		h.newProc()
 		pol := h.base
+		if skewed {
+			w.ClockSkews = clockSkewMenu(pol)
+		}
 		if t.Choose(3, "faulty") == 1 {
 			// the metastore keeps accepting writes; reads and the KMS may fail
 			enableRandomFaults(w, t, []string{"ms.err", "kms.err"}, pol.Expire, pol.Revoke)
@@ -150,7 +158,7 @@ func runC04(t *simrt.Tape, o Opts) Outcome {
 				return
 			}
 			f := factsFor(w, rec)
-			t0 := unixAt(w, op.T0)
+			t0 := unixAt(w, op.T0).Add(op.Skew)
 			stampNow := truncUnix(t0, pol.Precision)
 			// clause 1: the named IK is not older than the key lifetime at invocation time
 			count(st.Oracle, "ik-age")
@@ -199,7 +207,7 @@ func runC04(t *simrt.Tape, o Opts) Outcome {
 				}
 				count(st.Oracle, "ik-row-parent-age")
 				op := w.Ops[e.Op]
-				t0 := unixAt(w, op.T0)
+				t0 := unixAt(w, op.T0).Add(op.Skew)
 				skExpiry := time.Unix(row.ParentKeyMeta.Created, 0).Add(pol.Expire)
 				if t0.After(skExpiry) {
 					if !t0.Before(laterStampFrom(row.ParentKeyMeta.Created, pol.Precision)) {
@@ -242,8 +250,15 @@ func runC05(t *simrt.Tape, o Opts) Outcome {
 		h.gen = world.GenOpts{SmallCaps: t.Choose(3, "smallcaps") == 1, AllowTinyLFU: allowTinyLFU}
 		h.weights = [opKinds]int{opEncrypt: 10, opDecrypt: 2, opOpen: 1, opCloseSess: 1, opAdvance: 6, opRevoke: 3, opForeignRotate: 1, opRestart: 1, opNewProc: 1}
 		h.payloadClasses = []int{2}
+		skewed := t.Choose(4, "clock-skew") == 1
+		if skewed {
+			w.ClockSkews = []time.Duration{0}
+		}
 		h.newProc()
 		pol := h.base
+		if skewed {
+			w.ClockSkews = clockSkewMenu(pol)
+		}
 		if t.Choose(3, "faulty") == 1 {
 			// read-side and KMS failures only: the property presupposes that a replacement key can be created
 			enableRandomFaults(w, t, []string{"ms.err", "kms.err"}, pol.Expire, pol.Revoke)
@@ -264,7 +279,10 @@ func runC05(t *simrt.Tape, o Opts) Outcome {
 			}
 			f := factsFor(w, rec)
 			t0 := op.T0
-			stampNow := truncUnix(unixAt(w, t0), pol.Precision)
+			// intervals are differences of one process's clock readings, so a constant offset cancels;
+			// only "a later creation stamp exists" compares a clock reading with a stamp
+			local := func(d time.Duration) time.Time { return unixAt(w, d).Add(op.Skew) }
+			stampNow := truncUnix(local(t0), pol.Precision)
 			if f.ikRow == nil {
 				w.Violate("ik-not-persisted", "ik-not-persisted", "record names IK %s@%d which is not in the metastore", rec.IKID, rec.IKCreated)
 				return
@@ -273,8 +291,8 @@ func runC05(t *simrt.Tape, o Opts) Outcome {
 			if T, ok := revokedAt(w, rec.IKID, rec.IKCreated); ok && t0 > T+pol.Revoke {
 				held := used[fmt.Sprintf("%d|%s@%d", se.P.ID, rec.IKID, rec.IKCreated)]
 				classes[fmt.Sprintf("ik/%s/held=%v", cacheKind(se.P.Cfg), held)] = true
-				from := maxTime(unixAt(w, T), laterStampFrom(rec.IKCreated, pol.Precision))
-				if unixAt(w, t0).After(from.Add(pol.Revoke)) {
+				from := maxTime(local(T), laterStampFrom(rec.IKCreated, pol.Precision))
+				if local(t0).After(from.Add(pol.Revoke)) {
 					w.Violate("revoked-ik-used", "revoked-IK-used/cache="+cacheKind(se.P.Cfg), "encrypt invoked %v after IK %s@%d was flagged revoked in the metastore (revoke-check interval %v) still produced a record under it; a later stamp %d was available", t0-T, rec.IKID, rec.IKCreated, pol.Revoke, stampNow)
 				} else {
 					count(st.Oracle, "exempt-no-later-stamp")
@@ -284,8 +302,8 @@ func runC05(t *simrt.Tape, o Opts) Outcome {
 				count(st.Oracle, "sk-revocation-bound")
 				if T, ok := revokedAt(w, f.skID, f.skCreated); ok && t0 > T+2*pol.Revoke {
 					classes[fmt.Sprintf("sk/%s", cacheKind(se.P.Cfg))] = true
-					from := maxTime(unixAt(w, T), laterStampFrom(rec.IKCreated, pol.Precision), laterStampFrom(f.skCreated, pol.Precision))
-					if unixAt(w, t0).After(from.Add(2 * pol.Revoke)) {
+					from := maxTime(local(T), laterStampFrom(rec.IKCreated, pol.Precision), laterStampFrom(f.skCreated, pol.Precision))
+					if local(t0).After(from.Add(2 * pol.Revoke)) {
 						w.Violate("ik-under-revoked-sk-used", "IK-under-revoked-SK-used/cache="+cacheKind(se.P.Cfg), "encrypt invoked %v after SK %s@%d was flagged revoked (2 x revoke-check interval = %v) still produced a record under its child IK %s@%d", t0-T, f.skID, f.skCreated, 2*pol.Revoke, rec.IKID, rec.IKCreated)
 					} else {
 						count(st.Oracle, "exempt-no-later-stamp")
@@ -320,4 +338,15 @@ func storeFaulted(op *world.OpRec) bool {
 		}
 	}
 	return false
+}
+
+// clockSkewMenu: constant clock offsets between hosts, from sub-second to beyond the key lifetime.
+func clockSkewMenu(pol world.PolicyCfg) []time.Duration {
+	m := []time.Duration{0, 0, time.Second, -time.Second, 90 * time.Second, -90 * time.Second}
+	for _, d := range []time.Duration{pol.Precision, pol.Revoke / 2, pol.Revoke * 2, pol.Expire / 2, pol.Expire * 2} {
+		if d > 0 {
+			m = append(m, d, -d)
+		}
+	}
+	return m
 }
